@@ -156,6 +156,9 @@ def own_flag(scheme, hash_):
     """format-specific 'needs update' flags documented by the formats themselves"""
     if scheme == "bsdi_crypt":
         return cost_of(scheme, hash_) % 2 == 0
+    if scheme == "bcrypt" and hash_.startswith("$2a$") and len(hash_) > 28:
+        b64 = "./ABCDEFGHIJKLMNOPQRSTUVWXYZabcdefghijklmnopqrstuvwxyz0123456789"
+        return hash_[28] in b64 and b64.index(hash_[28]) & 0x0F != 0       # stray padding bits of the 22nd salt character
     if scheme == "scram":
         algs = {p.split("=")[0] for p in hash_.split("$")[4].split(",")}
         return not {"sha-1", "sha-256", "sha-512"} <= algs
